@@ -8,6 +8,7 @@ import CCVerif.Lemmas.EvaluatorAnalysis
 import CCVerif.Lemmas.CheckerEvaluatorRen
 import CCVerif.Lemmas.EvaluatorRenameTop
 import CCVerif.Lemmas.EvaluatorRenameCex
+import CCVerif.Lemmas.NormLocals
 /-!
 # C11 — a model never shows a calculated value that is stale w.r.t. current data
 -/
@@ -572,5 +573,115 @@ example : cstShapedN 10 ⟨2, "D1", .term, some (.node .NT_DECLARATIVE_EXPR .non
 
 example : (run (checkerR fun _ => []) (evaluatorE 10) histEvalRen).Fresh (checkerR fun _ => []) (evaluatorE 10) :=
   fresh_checker_evaluator_partial3 [] (by decide) 10 histEvalRen (by decide +kernel) (by decide) histEvalRen_shapedN
+
+end CCVerif.RSModelGen
+
+/-! # The last carrier condition, discharged (prover-C06f)
+
+`normLocals_statement` is PROVED (`Lemmas/NormLocals.lean`): in a grammar-shaped tree every `ID_LOCAL` token carries a
+text that lexes (MATH) as ONE `ID_LOCAL` token (`Wf.wf`, `wfLeaf`); such a text does not start with an upper-case
+letter (the only rules of the table with the actions skip / newline / `ID_LOCAL` / `END` are `{local_id}`, the blank
+rules, `\n` and `<<EOF>>`, none of which matches at an upper-case letter), so it is not a `GoodName`; the normaliser
+with the empty `SyntaxTreeContext` keeps the local spellings and adds only names that `ProcessTupleDeclaration`
+generates, which start with `@` (induction through all of `Model/Normalize.lean`). -/
+namespace CCVerif.RSModelGen
+open CCVerif.SchemaGen (checkerR CDef CInfo checkerR_lawful glob Cst)
+
+/-- **`normLocals_statement` holds**: on the carrier `cstShaped` (good alias, grammar-shaped definition) no local
+variable of the normalised definition tree is spelled like a good global name, for every fuel. (Only the
+definition half of `cstShaped` is used.) -/
+theorem normLocals_proved : normLocals_statement :=
+  fun fuel c hs => normLocalsOK_of_shaped fuel c hs.2
+
+/-- the two carriers coincide -/
+theorem cstShapedN_iff (fuel : Nat) (c : Cst CDef) : cstShapedN fuel c ↔ cstShaped c :=
+  ⟨fun h => h.1, fun h => ⟨h, normLocals_proved fuel c h⟩⟩
+
+/-- **C11 for the type-checker model and the evaluator model, histories WITH `SetAliasFor(…, substitute = true)` and
+`SubstitueAliases`; carrier = grammar-shaped constituents, nothing else** (`fresh_checker_evaluator_partial3` without
+its condition `normLocalsOK`; part: `SetAliasFor(…, substitute = false)` excluded — `NoPlainRename`; that every stored
+constituent stays grammar-shaped along the history is a hypothesis — it is NOT a consequence of "every inserted
+definition was parsed": `cstShaped_history_counterexample`). -/
+theorem fresh_checker_evaluator_partial4 (traits : Types.TraitEnv) (hT : TraitsApart traits) (fuel : Nat)
+    (ops : List (Op CDef Eval.Val))
+    (ha : AdmissibleAllFrom (checkerR fun _ => traits) (evaluatorE fuel) {} ops)
+    (hnp : ∀ op ∈ ops, NoPlainRename op)
+    (hP : ∀ k, ∀ c ∈ (run (checkerR fun _ => traits) (evaluatorE fuel) (ops.take k)).sch.store, cstShaped c) :
+    (run (checkerR fun _ => traits) (evaluatorE fuel) ops).Fresh (checkerR fun _ => traits) (evaluatorE fuel) :=
+  fresh_checker_evaluator_partial3 traits hT fuel ops ha hnp
+    (fun k c hc => (cstShapedN_iff fuel c).2 (hP k c hc))
+
+/-! non-vacuity: `histEvalRen` with the carrier hypothesis `histEvalRen_shaped` (no `normLocalsOK` evaluated) -/
+example : (run (checkerR fun _ => []) (evaluatorE 10) histEvalRen).Fresh (checkerR fun _ => []) (evaluatorE 10) :=
+  fresh_checker_evaluator_partial4 [] (by decide) 10 histEvalRen (by decide +kernel) (by decide) histEvalRen_shaped
+
+/-- non-vacuity of `normLocals_proved` on a definition with a tuple pattern, whose normalised tree has the generated
+local `@ab`: `D{(a,b)∈X1×X1 | a=b}` -/
+example :
+    let c : Cst CDef := ⟨2, "D1", .term, some (.node .NT_DECLARATIVE_EXPR .none 0 0
+      [.node .NT_TUPLE_DECL .none 0 0 [.node .ID_LOCAL (.text "a") 0 0 [], .node .ID_LOCAL (.text "b") 0 0 []],
+       .node .DECART .none 0 0 [glob "X1", glob "X1"],
+       .node .EQUAL .none 0 0 [.node .ID_LOCAL (.text "a") 0 0 [], .node .ID_LOCAL (.text "b") 0 0 []]])⟩
+    cstShaped c ∧ (SchemaGen.cstTree c).bind (fun tr => (Norm.normalizeTree [] 10 tr).map Norm.collectLocals) =
+      some ["@ab", "@ab", "@ab"] := by
+  decide +kernel
+
+/-! ## carrier preservation by the operations is NOT a consequence of "good inputs" -/
+
+/-- what an operation feeds into the store is in the carrier: inserted constituents are grammar-shaped with a good
+alias, edited definitions are grammar-shaped, new aliases are good names -/
+def OpShaped : Op CDef Eval.Val → Prop
+  | .schema (.insert c) => cstShaped c
+  | .schema (.load c) => cstShaped c
+  | .schema (.setDef _ d) => SchemaGen.defShaped d = true
+  | .schema (.setAlias _ a _) => Checker.GoodName a
+  | .schema (.substitute m) => ∀ p ∈ m, Checker.GoodName p.2
+  | _ => True
+
+instance (op : Op CDef Eval.Val) : Decidable (OpShaped op) := by
+  unfold OpShaped
+  split <;> infer_instance
+
+/-- the statement one would like (then `hP` of `fresh_checker_evaluator_partial4` would follow from a condition on
+the operations alone). FALSE: `cstShaped_history_counterexample`. -/
+def cstShaped_history_statement : Prop :=
+  ∀ (traits : Types.TraitEnv) (fuel : Nat) (ops : List (Op CDef Eval.Val)),
+    AdmissibleAllFrom (checkerR fun _ => traits) (evaluatorE fuel) {} ops → (∀ op ∈ ops, NoPlainRename op) →
+    (∀ op ∈ ops, OpShaped op) →
+    ∀ k, ∀ c ∈ (run (checkerR fun _ => traits) (evaluatorE fuel) (ops.take k)).sch.store, cstShaped c
+
+/-- `X1` = {1,2}; `D1 := X1∪X1`, calculated; `X1` renamed to `F1` with substitution -/
+def histKind : List (Op CDef Eval.Val) :=
+  [.schema (.insert ⟨1, "X1", .base, none⟩), .setBase 1 (.s [.e 1, .e 2]),
+   .schema (.insert ⟨2, "D1", .term, some (un (glob "X1") (glob "X1"))⟩),
+   .recalculateAll, .schema (.setAlias 1 "F1" true)]
+
+/-- **cstShaped_history_counterexample**: the carrier is not closed under the renaming operations of the machine, even
+when every inserted constituent is grammar-shaped and every new alias is a `GoodName`: renaming the base set `X1` to
+`F1` (a good name, but of another lexical KIND) with substitution turns the stored definition `X1∪X1` into the tree
+`F1∪F1` whose `ID_GLOBAL` tokens carry the text `F1`, which lexes as `ID_FUNCTION` — not `Wf.wf`. (The model stores
+TREES and renames tokens; the real code stores the TEXT `F1∪F1`, which re-parses with `ID_FUNCTION` tokens.) The
+history is admissible and the reported values ARE fresh, so this is a limit of the carrier, not a defect: a
+preservation theorem needs renamings that keep the lexical kind of the alias (`X…↦X…`, `D…↦D…`, …). -/
+theorem cstShaped_history_counterexample :
+    ¬ cstShaped_history_statement ∧
+    AdmissibleAllFrom (checkerR fun _ => []) (evaluatorE 10) {} histKind ∧ (∀ op ∈ histKind, NoPlainRename op) ∧
+    (∀ op ∈ histKind, OpShaped op) ∧
+    (run (checkerR fun _ => []) (evaluatorE 10) histKind).sch.store =
+      [⟨1, "F1", .base, none⟩, ⟨2, "D1", .term, some (un (glob "F1") (glob "F1"))⟩] ∧
+    ¬ cstShaped ⟨2, "D1", .term, some (un (glob "F1") (glob "F1"))⟩ ∧
+    (run (checkerR fun _ => []) (evaluatorE 10) histKind).report =
+      ((run (checkerR fun _ => []) (evaluatorE 10) histKind).recomputed (checkerR fun _ => []) (evaluatorE 10)).report := by
+  have ha : AdmissibleAllFrom (checkerR fun _ => []) (evaluatorE 10) {} histKind := by decide +kernel
+  have hn : ∀ op ∈ histKind, NoPlainRename op := by decide
+  have ho : ∀ op ∈ histKind, OpShaped op := by decide +kernel
+  have hs : (run (checkerR fun _ => []) (evaluatorE 10) histKind).sch.store =
+      [⟨1, "F1", .base, none⟩, ⟨2, "D1", .term, some (un (glob "F1") (glob "F1"))⟩] := by decide +kernel
+  have hc : ¬ cstShaped ⟨2, "D1", .term, some (un (glob "F1") (glob "F1"))⟩ := by decide +kernel
+  refine ⟨?_, ha, hn, ho, hs, hc, by decide +kernel⟩
+  intro h
+  have := h [] 10 histKind ha hn ho 5 ⟨2, "D1", .term, some (un (glob "F1") (glob "F1"))⟩
+  rw [List.take_of_length_le (by decide), hs] at this
+  exact hc (this (by simp))
 
 end CCVerif.RSModelGen
